@@ -234,6 +234,10 @@ def run_family(v, E, prop, names, tier, shapes, opts=None, flags_only=False, pos
                 unknown += len(res.unknown)
                 if res.unknown and unknown <= 3:
                     v.inconcl(f"{name}: solver returned unknown for L={L} w={w} mp={mp} mask={mask}: {res.unknown[:2]}")
+                if unknown > 3 and not reported:
+                    # a kernel the solver cannot decide (each unknown costs the full retry ladder): stop here, the kernel stays inconclusive
+                    v.inconcl(f"{name}: {unknown} undecided queries after {nshapes} shapes; remaining shapes skipped")
+                    break
                 if res.failures and not reported:
                     for f in res.failures:
                         key = f"{name}::{f['msg']}"
